@@ -244,6 +244,13 @@ func c02(c *core.Ctx) {
 		c.EndRule()
 	}
 
+	// ---------------------------------------------------------------- R10
+	// (the translator part of R3 on its own, so that properties that need only it can borrow it)
+	if c.Rule("R10", "errors cross the hand-off between handler and caller unchanged unless they ARE a context sentinel: a context→status translator replaces an error only if it compares equal (==) to context.Canceled / context.DeadlineExceeded; an error that merely wraps one keeps its own status and text", 1) {
+		c02TranslatorsExact(c)
+		c.EndRule()
+	}
+
 	// ---------------------------------------------------------------- R7
 	if c.Rule("R7", "what a call returns is what its return statement said: no function of the library that starts a goroutine lets that goroutine store into one of its own result variables — the store can land after the return statement has set the result (while a deferred function runs), turning a failed call into a nil error or one status into another", 1) {
 		n := 0
